@@ -214,14 +214,21 @@ def set_ifm_ofm_op_shapes(op, arch, nng):
 def move_splitsliceread_to_consumer(op, cons_op):
     assert op.type == Op.SplitSliceRead
 
+    def move_to_input(idx):
+        if cons_op.read_offsets[idx] is None:
+            cons_op.read_offsets[idx] = op.read_offsets[0]
+            cons_op.read_shapes[idx] = op.read_shapes[0]
+        else:
+            # The consumer already reads a part of op's output (it is itself a slice read): its offset is relative to
+            # the slice produced by op, so the offsets add up and the consumer's (smaller) read shape is kept
+            cons_op.read_offsets[idx] = op.read_offsets[0] + cons_op.read_offsets[idx]
+
     if cons_op.ifm == op.ofm:
-        cons_op.read_offsets[0] = op.read_offsets[0]
-        cons_op.read_shapes[0] = op.read_shapes[0]
+        move_to_input(0)
         cons_op.set_input_tensor(op.ifm, cons_op.type.info.indices.ifms[0])
         cons_op.ifm_shapes[0] = op.ifm_shapes[0]
     elif cons_op.type.is_binary_elementwise_op() and cons_op.ifm2 == op.ofm:
-        cons_op.read_offsets[1] = op.read_offsets[0]
-        cons_op.read_shapes[1] = op.read_shapes[0]
+        move_to_input(1)
         cons_op.set_input_tensor(op.ifm, cons_op.type.info.indices.ifms[1])
         cons_op.ifm_shapes[1] = op.ifm_shapes[0]
     op.ofm.consumer_list.remove(cons_op)
